@@ -20,6 +20,8 @@ func init() {
 			c02h("verifHarnessC02Get", []string{"end-absent", "end-present"}, "DB.Get returns the active number and bytes, copy-out"),
 			c02h("verifHarnessC02GetVersion", []string{"end-absent", "end-present"}, "DB.GetVersion"),
 			c02h("verifHarnessC02Info", []string{"end-absent", "end-present"}, "DB.Info lists exactly the existing versions, sorted"),
+			{Name: "verifHarnessC02History", Pkg: "db", Stubs: dbStubs, Params: map[string]int{"steps": 2}, ThoroughParams: map[string]int{"steps": 3}, ExpectReach: []string{"end"},
+				Desc: "bounded histories (2 / 3 operations, kind and arguments symbolic, two symbolic names) from the empty database against an executable map model; also shows the invariant is reached, not only preserved"},
 			c02hp("verifHarnessC02List", []string{"end"}, "DB.List as superuser lists every secret, sorted by name", 2, 2, 2, 3),
 		},
 		Bounds: map[string]string{"secrets_per_state": "2 (quick) / 3 (thorough)", "versions_per_secret": "3 / 4",
